@@ -2,7 +2,7 @@
    Mirrors repid/connections/in_memory/message_broker.py (enqueue/__put, ack, nack, reject, requeue),
    consumer.py (__update_delayed, __consume_normal/_delayed/_dead, consume, finish) and utils.py
    (DummyQueue with taken_from / taken_by / put_back, wait_until) at /repo HEAD (with fixes 60dc6fd,
-   09419a9, ee1e1bb).
+   09419a9, ee1e1bb and the full-turn __consume_normal).
 
    Every broker call is `await sleep(0); <one synchronous block>; await sleep(0)`: the block is one
    atomic effect and a cancelled call has performed it entirely or not at all.  One *poll* of
@@ -130,19 +130,35 @@ Definition msg_overdue (m : msg) (now : time) : bool := overdue (p_ts (m_params 
 
 Inductive poll_result := PNone | PDelivered (m : msg).
 
+(* what __consume_normal is looking for: a waiting message of its queue, not expired, of a topic it serves *)
+Definition hit (q : Z) (topics : list Z) (now : time) (m : msg) : bool :=
+  in_queue q m && negb (msg_overdue m now) && topic_ok topics m.
+
+(* __consume_normal (since the fix recorded for C11): one full turn of the queue.  Every waiting message of the queue is
+   looked at once, up to the first hit: expired ones go to the dead-letter list, foreign topics stay where they are, the
+   messages behind the hit are not examined; the ones which stay keep their order.
+   Result: (dead-lettered, found, remaining waiting list). *)
+Fixpoint scan (q : Z) (topics : list Z) (now : time) (l : list msg) : list msg * option msg * list msg :=
+  match l with
+  | [] => ([], None, [])
+  | m :: r =>
+      if in_queue q m then
+        if msg_overdue m now then let '(d, f, k) := scan q topics now r in (m :: d, f, k)
+        else if topic_ok topics m then ([], Some m, r)
+        else let '(d, f, k) := scan q topics now r in (d, f, m :: k)
+      else let '(d, f, k) := scan q topics now r in (d, f, m :: k)
+  end.
+
 (* one poll of consume() by consumer c on queue q *)
 Definition poll (s : mstate) (c q : Z) (ct : cat) (topics : list Z) (now : time) (upd : bool) : mstate * poll_result :=
   let s1 := if upd then update_delayed s q now else s in
   let s1 := mkS (simple s1) (delayed s1) (dead s1) (processing s1) (gone s1) (stamp s1) (Z.max (clk s1) now) in
   match ct with
   | Normal =>
-      match take_first (in_queue q) (simple s1) with
-      | None => (s1, PNone)
-      | Some (m, rest) =>
-          let s2 := mkS rest (delayed s1) (dead s1) (processing s1) (gone s1) (stamp s1) (clk s1) in
-          if msg_overdue m now then (mkS rest (delayed s1) (dead s1 ++ [m]) (processing s1) (gone s1) (stamp s1) (clk s1), PNone)
-          else if negb (topic_ok topics m) then (mkS (rest ++ [m]) (delayed s1) (dead s1) (processing s1) (gone s1) (stamp s1) (clk s1), PNone)
-          else (set_processing s2 (processing s2 ++ [mkHeld m ONormal c]), PDelivered m)
+      let '(d, f, k) := scan q topics now (simple s1) in
+      match f with
+      | None => (mkS k (delayed s1) (dead s1 ++ d) (processing s1) (gone s1) (stamp s1) (clk s1), PNone)
+      | Some m => (mkS k (delayed s1) (dead s1 ++ d) (processing s1 ++ [mkHeld m ONormal c]) (gone s1) (stamp s1) (clk s1), PDelivered m)
       end
   | DelayedC =>
       match min_key q (delayed s1) with
